@@ -64,6 +64,12 @@ func c10JudgeAccessors(k c10Case) *vlib.Failure {
 	return nil
 }
 
+// c10Pre: what an outer layer has put into the response header map before the middleware runs: the Vary values of
+// the case and the cache directives of a layer that forbids storing by default (the wrapped handler may relax them).
+func c10Pre(vary []string) map[string][]string {
+	return map[string][]string{"Vary": vary, "Cache-Control": {"no-store"}, "Pragma": {"no-cache"}, "Expires": {"0"}, "Surrogate-Control": {"no-store"}, "Age": {"0"}}
+}
+
 // c10Plain serves r and leaves the response alone.
 func c10Plain(h http.Handler, r vlib.Req) string {
 	rec := vlib.NewRec()
@@ -228,7 +234,7 @@ func c10Judge(k c10Case) *vlib.Failure {
 		}
 		var pre map[string][]string
 		if k.Preset != nil {
-			pre = map[string][]string{"Vary": k.Preset}
+			pre = c10Pre(k.Preset)
 		}
 		reqs := c10Requests(k.Thorough)
 		var a, b vlib.Resp
@@ -252,7 +258,7 @@ func c10Judge(k c10Case) *vlib.Failure {
 	}
 	var pre map[string][]string
 	if k.Preset != nil {
-		pre = map[string][]string{"Vary": k.Preset}
+		pre = c10Pre(k.Preset)
 	}
 	a := vlib.Serve(h, &inner.Calls, k.R1, pre)
 	b := vlib.Serve(h, &inner.Calls, k.R2, pre)
@@ -401,7 +407,7 @@ func checkC10(c *vlib.Ctx) (string, string) {
 		}
 		var pre map[string][]string
 		if j.preset != nil {
-			pre = map[string][]string{"Vary": j.preset}
+			pre = c10Pre(j.preset)
 		}
 		n := len(reqs)
 		resps := make([]vlib.Resp, n)
